@@ -851,7 +851,7 @@ func init() {
 		t1 := t.w.types[p[0]%len(t.w.types)]
 		t2 := t.w.types[p[1]%len(t.w.types)]
 		js, err := t1.MarshalJSON()
-		return sres("%t %s %s %s %d %t %s %s", t1.Equals(t2), t1.FriendlyName(), t1.GoString(), js, len(t1.TestConformance(t2)), t1.HasDynamicTypes(), errClass(err), cty.VerifFingerprintType(t1.WithoutOptionalAttributesDeep()))
+		return sres("%t %s %s %s %d %t %s %s", t1.Equals(t2), t1.FriendlyName(), t1.GoString(), js, len(t1.TestConformance(t2)), t1.HasDynamicTypes(), errClass(err), fpType(t1.WithoutOptionalAttributesDeep()))
 	})
 	defOp("TypeJSONRoundTrip", "", func(t *taskState, a [3]cty.Value, p [3]int) opRes {
 		t1 := t.w.types[p[0]%len(t.w.types)]
@@ -863,7 +863,7 @@ func init() {
 		if err != nil {
 			return sres("%s", errClass(err))
 		}
-		return sres("%s", cty.VerifFingerprintType(t2))
+		return sres("%s", fpType(t2))
 	})
 	// ---- conversion / unification
 	defOp("Convert", "", func(t *taskState, a [3]cty.Value, p [3]int) opRes {
@@ -964,7 +964,7 @@ func init() {
 				}
 			}
 		}
-		return opRes{vals: out, s: cty.VerifFingerprintType(ty)}
+		return opRes{vals: out, s: fpType(ty)}
 	}, selAny, selAny)
 	defOp("SharedConversion", "", func(t *taskState, a [3]cty.Value, p [3]int) opRes {
 		if len(t.w.convs) == 0 {
@@ -1012,7 +1012,7 @@ func init() {
 		if vp := f.f.VarParam(); vp != nil {
 			vp.Type = cty.Bool
 		}
-		return sres("%s", cty.VerifFingerprintType(ty))
+		return sres("%s", fpType(ty))
 	}, selAny, selAny, selAny)
 	// ---- codecs
 	defOp("JSONRoundTrip", "", func(t *taskState, a [3]cty.Value, p [3]int) opRes {
@@ -1030,7 +1030,7 @@ func init() {
 			return sres("unmarshal %s", errClass(err))
 		}
 		it, _ := ctyjson.ImpliedType(b)
-		return opRes{vals: []cty.Value{r}, s: string(b) + cty.VerifFingerprintType(it)}
+		return opRes{vals: []cty.Value{r}, s: string(b) + fpType(it)}
 	}, selAny)
 	defOp("SimpleJSON", "", func(t *taskState, a [3]cty.Value, p [3]int) opRes {
 		u, _ := a[0].UnmarkDeep()
@@ -1057,7 +1057,7 @@ func init() {
 			return sres("unmarshal %s", errClass(err))
 		}
 		it, _ := msgpack.ImpliedType(b)
-		return opRes{vals: []cty.Value{r}, s: fmt.Sprintf("%x", b) + cty.VerifFingerprintType(it)}
+		return opRes{vals: []cty.Value{r}, s: fmt.Sprintf("%x", b) + fpType(it)}
 	}, selAny)
 	// bytes an encoder returned are the caller's: scribbling over them must not change what encoding the same
 	// (or any other) value gives afterwards
@@ -1590,7 +1590,7 @@ func (w *world) fingerprints() []string {
 		out = append(out, fp(v))
 	}
 	for _, t := range w.types {
-		out = append(out, cty.VerifFingerprintType(t))
+		out = append(out, fpType(t))
 	}
 	for _, s := range w.sets {
 		out = append(out, cty.VerifFingerprintValueSet(s))
